@@ -42,6 +42,7 @@ class FnSpec:
         self.r16 = False
         self.slices = {}
         self.r12args = {}
+        self.closure_alts = {}      # ordinal -> {key: (header, [raw])}: alternatives by parameter key
         self.closure_keys = None    # expected parameter keys of all closures of the function, in order (alignment)
 
 
@@ -170,9 +171,16 @@ def parse_vspec(path):
             a, b = rest.split()
             cur_fn.r12map[a] = b
         elif kw == "closure":
-            m = re.match(r"(\d+)\s+(.*)$", rest)
+            # closure N (params) -> (ret)            : the annotation of the N-th closure
+            # closure N alt "key" (params) -> (ret)  : an alternative used when the N-th closure's parameter key is `key`
+            #   instead of the one listed under `closures` (e.g. two nested closures written the other way round): each
+            #   variant states what a closure with those parameters computes, so the function's own postcondition decides
+            m = re.match(r"(\d+)\s+(?:alt\s+(\"(?:[^\"\\]|\\.)*\")\s+)?(.*)$", rest)
             body = []
-            cur_fn.closures[int(m.group(1))] = (m.group(2), body)
+            if m.group(2):
+                cur_fn.closure_alts.setdefault(int(m.group(1)), {})[norm(json.loads(m.group(2)))] = (m.group(3), body)
+            else:
+                cur_fn.closures[int(m.group(1))] = (m.group(3), body)
             raw_target = body
         elif kw == "loop":
             m = re.match(r"(\d+)(\s+iter\s+(\w+))?(\s+pat\s+(\"(?:[^\"\\]|\\.)*\"))?(\s+over\s+(\"(?:[^\"\\]|\\.)*\"))?$", rest)
@@ -193,7 +201,7 @@ def parse_vspec(path):
                 cur_fn.hints.append((m.group(1), json.loads(m.group(2)), int(m.group(4) or 1), body))
             raw_target = body
         elif kw == "rewrite":
-            m = re.match(r"(\w+)\s+(\"(?:[^\"\\]|\\.)*\")\s*=>\s*(\"(?:[^\"\\]|\\.)*\")$", rest)
+            m = re.match(r"(\w+\??)\s+(\"(?:[^\"\\]|\\.)*\")\s*=>\s*(\"(?:[^\"\\]|\\.)*\")$", rest)
             if not m:
                 raise SystemExit(f"{path}:{ln}: bad rewrite")
             rw = (m.group(1), json.loads(m.group(2)), json.loads(m.group(3)))
@@ -295,6 +303,58 @@ def subst_caps(new, caps, toks, src, others=()):
     for k, (a, b) in caps.items():
         new = new.replace(f"${k}", rewrite_text(src[toks[a].pos:toks[b].end], others))
     return new
+
+
+
+def align_closures(fs, toks, cl, src):
+    """expected ordinal -> (actual index, header, raw) for the annotated closures of a function.
+    Positional first: if every annotated closure sits at its ordinal with the listed key, or with a key for which an
+    `alt` annotation exists, that annotation is used.  Otherwise the keys are aligned as sequences (difflib)."""
+    ann = {}
+    if fs.closure_keys is None:
+        for n, (hdr, raw) in fs.closures.items():
+            if n - 1 < len(cl):
+                ann[n] = (n - 1, hdr, raw)
+        return ann
+    actual = [norm(closure_key(toks, c, src)) for c in cl]
+    exp = [norm(k) for k in fs.closure_keys]
+    def callee(c):
+        # the method / function the closure is an argument of: `X.map(|..| ..)` -> "map"
+        k = prev_sig_idx(toks, c.bar1 - 1)
+        while k >= 0 and not (toks[k].kind == "punct" and toks[k].text == "("):
+            if toks[k].kind == "punct" and toks[k].text in (";", "{", "}"):
+                return ""
+            k = prev_sig_idx(toks, k - 1)
+        k = prev_sig_idx(toks, k - 1) if k >= 0 else -1
+        return toks[k].text if k >= 0 and toks[k].kind == "ident" else ""
+    if len(actual) == len(exp):
+        ok = True
+        for n, (hdr, raw) in fs.closures.items():
+            if n - 1 >= len(actual):
+                ok = False; break
+            mk = norm(callee(cl[n - 1]) + " : " + actual[n - 1])
+            if mk in fs.closure_alts.get(n, {}):
+                # `alt "method : key"`: the closure is passed to another method than the one the default annotation fits
+                h2, r2 = fs.closure_alts[n][mk]
+                ann[n] = (n - 1, h2, r2)
+            elif actual[n - 1] == exp[n - 1]:
+                ann[n] = (n - 1, hdr, raw)
+            elif actual[n - 1] in fs.closure_alts.get(n, {}):
+                h2, r2 = fs.closure_alts[n][actual[n - 1]]
+                ann[n] = (n - 1, h2, r2)
+            else:
+                ok = False; break
+        if ok:
+            return ann
+    import difflib
+    ann = {}
+    sm = difflib.SequenceMatcher(a=exp, b=actual, autojunk=False)
+    for blk in sm.get_matching_blocks():
+        for d in range(blk.size):
+            n = blk.a + d + 1
+            if n in fs.closures:
+                ann[n] = (blk.b + d, fs.closures[n][0], fs.closures[n][1])
+    return ann
 
 
 def closure_key(toks, c, src):
@@ -419,17 +479,9 @@ def process_fn(toks, it, fs: FnSpec, qual, ed: Edits, log, unit_in_trait_impl):
     # closures
     if fs.closures:
         cl = find_closures(toks, lo, hi)
-        amap = {n: n - 1 for n in range(1, len(cl) + 1)}      # expected ordinal -> actual index
-        if fs.closure_keys is not None:
-            import difflib
-            actual = [closure_key(toks, c, src) for c in cl]
-            sm = difflib.SequenceMatcher(a=fs.closure_keys, b=actual, autojunk=False)
-            amap = {}
-            for blk in sm.get_matching_blocks():
-                for d in range(blk.size):
-                    amap[blk.a + d + 1] = blk.b + d
-        for n, (hdr, raw) in sorted(fs.closures.items()):
-            if n not in amap or amap[n] >= len(cl):
+        ann = align_closures(fs, toks, cl, src)
+        for n in sorted(fs.closures):
+            if n not in ann:
                 # the annotated closure is gone (deleted or its parameters renamed): the annotation is dropped;
                 # a pure deletion does not weaken the proof of what remains, a rename does
                 exp = len(fs.closure_keys) if fs.closure_keys is not None else n
@@ -437,7 +489,10 @@ def process_fn(toks, it, fs: FnSpec, qual, ed: Edits, log, unit_in_trait_impl):
                 if fs.closure_keys is None:
                     raise LostAnchor(f"{qual}: closure {n} not found ({len(cl)} closures)")
                 continue
-            c = cl[amap[n]]
+            ai, hdr, raw = ann[n]
+            if hdr is not fs.closures[n][0]:
+                log["rewrites"].append({"rule": "RC-alt", "fn": qual, "before": f"closure {n}", "after": hdr, "note": "alternative annotation selected by parameter key"})
+            c = cl[ai]
             # hdr: "(o: &Output) -> (b: bool)"  => |o: &Output| -> (b: bool)
             depth = 0
             endp = -1
@@ -457,7 +512,12 @@ def process_fn(toks, it, fs: FnSpec, qual, ed: Edits, log, unit_in_trait_impl):
             mm = re.match(r"^\s*(\w+)\s*:\s*(.*?)\s+as\s+(.+)$", params)
             if mm:
                 params = f"{mm.group(1)}: {mm.group(2)}"
-                rc_lets.append(f"let {mm.group(3)} = {mm.group(1)};")
+                pat = mm.group(3).strip()
+                if re.match(r"^&\s*\w+$", pat):
+                    # `|&x|`: Verus has no reference patterns; binding through a dereference is the same thing
+                    rc_lets.append(f"let {pat[1:].strip()} = *{mm.group(1)};")
+                else:
+                    rc_lets.append(f"let {pat} = {mm.group(1)};")
             head = "|" + params + "|" + (f" -> {ret}" if ret else "")
             spec = ("\n" + "\n".join(raw) + "\n") if raw else " "
             old = src[toks[c.bar1].pos:toks[c.bar2].end]
@@ -630,17 +690,7 @@ def process_fn(toks, it, fs: FnSpec, qual, ed: Edits, log, unit_in_trait_impl):
     cl_all = find_closures(toks, lo, hi)
     annotated_actual = set()
     if fs.closures:
-        if fs.closure_keys is not None:
-            import difflib
-            actual_k = [closure_key(toks, c, src) for c in cl_all]
-            sm2 = difflib.SequenceMatcher(a=fs.closure_keys, b=actual_k, autojunk=False)
-            m2 = {}
-            for blk in sm2.get_matching_blocks():
-                for d in range(blk.size):
-                    m2[blk.a + d + 1] = blk.b + d
-            annotated_actual = {m2[n] + 1 for n in fs.closures if n in m2}
-        else:
-            annotated_actual = set(fs.closures)
+        annotated_actual = {ai + 1 for (ai, _h, _r) in align_closures(fs, toks, cl_all, src).values()}
     for ci, c in enumerate(cl_all, 1):
         if ci in annotated_actual or c.bar1 == c.bar2:
             continue
@@ -1036,6 +1086,11 @@ def process_fn(toks, it, fs: FnSpec, qual, ed: Edits, log, unit_in_trait_impl):
     for rule, old, new in fs.rewrites:
         occ = find_subseq_w(toks, it.kw, it.last + 1, old)
         if not occ:
+            if rule.endswith("?"):
+                # optional rewrite (`rewrite R11? …`): the construct it outlines is one of several shapes the code may
+                # take; when it is absent the function is verified as written
+                log["rewrites"].append({"rule": rule, "fn": qual, "before": old, "after": new, "count": 0})
+                continue
             raise LostAnchor(f"{qual}: rewrite {rule} anchor {old!r} not found")
         for a, b, caps in occ:
             ed.replace(toks[a].pos, toks[b].end, subst_caps(new, caps, toks, src, [x for x in fs.rewrites if x[1] != old]))
